@@ -106,7 +106,7 @@ class Obligation:
                 "solver_s": round(self.solver_s, 4), "backend": self.backend, "cex": self.cex,
                 "detail": self.detail, "kind": getattr(self, "kind", "rule"),
                 "no_input_expected": getattr(self, "no_input_expected", False),
-                "bounded": getattr(self, "bounded", False),
+                "bounded": getattr(self, "bounded", False), "vc_sample": getattr(self, "vc_sample", None),
                 "confirmed_natively": getattr(self, "confirmed_natively", False)}
 
 
@@ -122,6 +122,9 @@ def check_valid(it, goal, ob, timeout_ms=10000, cvc5_fallback=None):
     s = it.solver
     s.set("timeout", timeout_ms)
     t0 = time.time()
+    if not getattr(ob, "vc_sample", None):
+        # one verification condition per obligation is kept for the evidence file: |pc| assertions and the negated clause
+        ob.vc_sample = {"path_condition_assertions": len(s.assertions()), "negated_clause_smt": z3.Not(g).sexpr()[:700]}
     s.push()
     s.add(z3.Not(g))
     r = s.check()
